@@ -25,6 +25,7 @@ i.e. revision_points had nothing to do) must reproduce every R line — this is 
     python3 tools/gen/pe_stream.py [--seed N] [--n N] [--repo PATH]
 """
 import math
+import re
 import os
 import sys
 import time
@@ -722,7 +723,11 @@ def prepare_networks(ctx, n):
     nets = []
     corpus = ctx.verif / "corpus" / "C05"
     for f in sorted(corpus.glob("pe-*.gkf")) if corpus.exists() else []:
-        nets.append((f.read_text(), {"family": "corpus", "corpus": f.name, "drop": None}))
+        meta = {"family": "corpus", "corpus": f.name, "drop": None}
+        m = re.search(r"<!--\s*pe-script:\s*rm_obs\s+(\d+)\s*-->", f.read_text())
+        if m:                                   # a corpus network may ask for one observation to be switched off
+            meta["rm_obs"] = int(m.group(1))
+        nets.append((f.read_text(), meta))
     nets += gen_networks(ctx.rng, n)
     for i, (text, meta) in enumerate(nets):
         meta["alg"] = ALGS[ctx.rng.randrange(4)]
